@@ -1,6 +1,7 @@
 """decorate_with_checker, resolve_kwdefaults, closures as heap objects, inspect.Signature and update_wrapper (externals)."""
 import ast
 import z3
+from pyvc.base import qforall
 
 from pyvc.base import (V, NONE, TRUE, FALSE, I, B, SeqI, T_DICT, T_LIST, T_FUNC, ISINST, clsref, strref, objref, fresh, vbool, vint, IDOF,
                        BOXINT, UNBOXINT, LIST_INDEX, distinct_elements, Marker, TY)
@@ -26,8 +27,8 @@ def signature_facts(st, sg):
     nm = NAMES(sg)
     j = z3.Int("j!sg")
     return [z3.Length(nm) == z3.Length(ps),
-            z3.ForAll([j], z3.Implies(z3.And(j >= 0, j < z3.Length(ps)), nm[j] == attr(st, ps[j], "name")), patterns=[ps[j]]),
-            z3.ForAll([j], z3.Implies(z3.And(j >= 0, j < z3.Length(nm)), nm[j] != NONE), patterns=[nm[j]]),  # names are str objects
+            qforall([j], z3.Implies(z3.And(j >= 0, j < z3.Length(ps)), nm[j] == attr(st, ps[j], "name")), patterns=[ps[j]]),
+            qforall([j], z3.Implies(z3.And(j >= 0, j < z3.Length(nm)), nm[j] != NONE), patterns=[nm[j]]),  # names are str objects
             distinct_elements(nm), PARAMS(sg) > 2, PARAMS(sg) < st.ctr, sg > 2, sg < st.ctr]
 
 
@@ -58,16 +59,20 @@ def _signature(ex, st, node, args, kwargs):
 REG.calls["inspect.signature"] = _signature
 
 
+_prev_attr_hook = REG.attr_hook
+_prev_contains_hook = REG.contains_hook
+
+
 def _attr_hook(ex, st, o, attr_name):
     if o.kind == "ref" and o.py == "signature" and attr_name == "parameters":
         return [(st, V("ref", o.t, "sigparams"))]
-    return None
+    return _prev_attr_hook(ex, st, o, attr_name)
 
 
 def _contains_hook(ex, st, container, item):
     if container.py == "sigparams":
         return has_name(container.t, ex.to_ref(st, item))
-    return None
+    return _prev_contains_hook(ex, st, container, item)
 
 
 REG.attr_hook = _attr_hook
@@ -152,6 +157,8 @@ def _closure_value(ex, st, stmt):
     attributes env:<name> (read when the closure's own contract is related to the enclosing function's, C05/C14)."""
     w = st.alloc(T_FUNC, "closure")
     st.put("attr:__def__", w, S("async" if isinstance(stmt, ast.AsyncFunctionDef) else "sync"))
+    # a `def` creates a plain function object
+    st.assume(z3.Function("inspect_isfunction", I, B)(w), z3.Not(ISINST(w, clsref("staticmethod"))), z3.Not(ISINST(w, clsref("classmethod"))))
     for a in TRACKED_DICT + ["__wrapped__"]:
         st.put("has:" + a, w, z3.BoolVal(False))
     st.ghost.setdefault("closures", {})
@@ -278,6 +285,7 @@ class DecorateWithChecker(FnSpec):
         out = [
             ("signature_available", z3.Not(sr)), ("no_reserved_parameter_names", z3.Not(self.reserved(c))),
             ("fresh_checker", w >= c.pre.ctr),
+            ("a_plain_function", z3.And(z3.Function("inspect_isfunction", I, B)(w), z3.Not(ISINST(w, clsref("staticmethod"))), z3.Not(ISINST(w, clsref("classmethod"))))),
             ("async_closure_iff_coroutine_function", attr(st, w, "__def__") == z3.If(IS_COROFN(f), S("async"), S("sync"))),
             ("wrapped_is_func", z3.And(st.get("has:__wrapped__", w), attr(st, w, "__wrapped__") == f)),
             ("closure.func", attr(st, w, "env:func") == f),
